@@ -7,7 +7,7 @@ import os, sys, json, re, glob, shutil
 mx = json.load(open(sys.argv[1] if len(sys.argv) > 1 else "/tmp/seed_matrix.json"))
 OUT = "/verif/seeded"
 ROUND = int(os.environ.get("ROUND", "2"))
-KEYS = {2: ("m3", "m4", "b1", "b2", "b3", "b2r"), 3: ("m5", "m6", "b4", "b5", "b6"), 4: ("m7", "m8", "b7", "b8", "b9"), 5: ("m9", "m10", "b10", "b11")}[ROUND]
+KEYS = {2: ("m3", "m4", "b1", "b2", "b3", "b2r"), 3: ("m5", "m6", "b4", "b5", "b6"), 4: ("m7", "m8", "b7", "b8", "b9"), 5: ("m9", "m10", "b10", "b11"), 6: ("m11", "m12", "b12", "b13")}[ROUND]
 n = 0
 WT = os.environ.get("WTPREFIX", "/tmp/wt-")
 for d in sorted(glob.glob(WT + "C??-out")):
